@@ -163,7 +163,7 @@ func genFeatures(idx *index.Index) []string {
 }
 
 func partGoGitWritten(c *vf.Ctx, g *gitx.Git) {
-	n := c.N(160, 2400)
+	n := c.N(160, 1400)
 	repos := map[int]string{}
 	for _, hsz := range []int{20, 32} {
 		d := c.TempDir(fmt.Sprintf("gen%d", hsz))
